@@ -134,8 +134,24 @@ func initCoverage() {
 	if len(SiteHits) < NumSites+1 {
 		SiteHits = make([]uint32, NumSites+1)
 		SitePreempted = make([]uint32, NumSites+1)
+		atomicSite = make([]bool, NumSites+1)
+		for _, id := range AtomicSiteIDs {
+			if int(id) < len(atomicSite) {
+				atomicSite[id] = true
+			}
+		}
 	}
 }
+
+var atomicSite []bool
+
+// InterestTrace, if set, is called when the running task is about to execute a
+// statement that performs a sync/atomic operation (with the op-local yield
+// index): schedule generators place preemptions right after such statements.
+var InterestTrace func(task, op, k int)
+
+// AtomicHits counts executed sync/atomic statements (evidence).
+var AtomicHits uint64
 
 // Active reports whether a simulated run is in progress.
 func Active() bool { return on }
@@ -217,6 +233,12 @@ func Yield(site uint32) {
 	rep.Trace = (rep.Trace ^ (uint64(t.id)<<32 | uint64(site))) * 0x100000001b3
 	if int(site) < len(SiteHits) {
 		SiteHits[site]++
+		if atomicSite[site] {
+			AtomicHits++
+			if InterestTrace != nil {
+				InterestTrace(t.id, t.op, t.opYields)
+			}
+		}
 	}
 
 	// monitor phase: nested yields are ignored
